@@ -190,7 +190,23 @@ func (bd *Bounds) sameLoad(x, y ssa.Value) bool {
 	if Dominates(ly, lx) {
 		return !bd.killedBetween(ly, lx, bx.Type(), fx)
 	}
-	return false
+	// neither dominates the other (one of them sits in an arm of a || b kept in a
+	// variable): equal if an earlier load of the same field dominates both with
+	// no kill on the way to either
+	same := false
+	Instrs(lx.Parent(), func(i ssa.Instruction) {
+		lz, ok := i.(*ssa.UnOp)
+		if same || !ok || lz == lx || lz == ly {
+			return
+		}
+		if _, bz, fz, okz := fieldLoad(lz); !okz || bz != bx || fz != fx {
+			return
+		}
+		if Dominates(lz, lx) && Dominates(lz, ly) && !bd.killedBetween(lz, lx, bx.Type(), fx) && !bd.killedBetween(lz, ly, bx.Type(), fx) {
+			same = true
+		}
+	})
+	return same
 }
 
 // sameValue extends sameLoad to whole-struct loads through the same pointer
